@@ -1308,6 +1308,9 @@ class Engine:
 		for s, acc in cur:
 			if all(isinstance(a, (str, int)) and not isinstance(a, bool) for a in acc):
 				yield s, ''.join(str(a) for a in acc)
+			elif all(isinstance(a, (str, SStr)) for a in acc) and len(acc) >= 2:
+				# plain interpolation of (symbolic) strings: the concatenation
+				yield s, SStr(z3.Concat(*[a.term if isinstance(a, SStr) else z3.StringVal(a) for a in acc]))
 			else:
 				yield s, OpaqueStr()
 
@@ -1631,6 +1634,14 @@ class Engine:
 				ca = self._class_attr(st, c.cls, attr)
 				if ca is not None:
 					yield st, ca[0]
+					return
+				# @property of a repository class: reading the attribute calls the getter
+				try:
+					pfi = self.repo.funcinfo(f'{c.cls}.{attr}') if c.cls.startswith('gambit') else None
+				except Unsupported:
+					pfi = None
+				if pfi is not None and any(ast.unparse(d) == 'property' for d in pfi.node.decorator_list):
+					yield from self.call_repo(st, pfi.qualname, [], {}, node, f'property:{attr}', self_val=obj)
 					return
 				yield st, BoundMethod(obj, attr)
 				return
@@ -2073,6 +2084,20 @@ class Engine:
 			raise
 		if self_val is None and fi.cls is not None and any(ast.unparse(d) == 'classmethod' for d in fi.node.decorator_list):
 			self_val = ClassRef(qualname.rsplit('.', 1)[0])
+		unfold = False
+		if c is not None and not c.inline and c.hints.get('unfold_recursion') and c is self.cur_contract:
+			# a re-entrant call of the function under verification (e.g. through a property that calls back): its body is
+			# unfolded once instead of using the contract; deeper re-entrance uses the contract
+			depth = getattr(self, '_unfold_depth', 0)
+			if depth < 1:
+				unfold = True
+		if unfold:
+			self._unfold_depth = getattr(self, '_unfold_depth', 0) + 1
+			try:
+				yield from self.inline_call(st, fi.node, fi, args, kwargs, node, self_val=self_val)
+			finally:
+				self._unfold_depth -= 1
+			return
 		if c is None or c.inline:
 			if c is None and qualname not in self.registry.inline:
 				# a repository function without a contract (e.g. a helper introduced by a refactoring): its real body is
